@@ -592,3 +592,21 @@ def canon(world, extra=()):
                      for d in net))
     out.append(extra)
     return tuple(out)
+
+
+def world_digest(w):
+    """digest of everything observable a run produced (datagrams emitted, netlink bytes, table states): two runs of
+    the same case must agree bit for bit, or some source of nondeterminism is not owned by the harness"""
+    import hashlib
+    h = hashlib.sha256()
+    for d in (w.sent_log or []):
+        h.update(d.src.encode() + d.dst.encode() + d.data)
+    for name in sorted(w.endpoints):
+        ep = w.endpoints[name]
+        h.update(name.encode() + (b'1' if ep.alive else b'0'))
+        for raw, req, err in ep.kernel.log:
+            h.update(raw + bytes([err & 0xFF]))
+        if ep.alive:
+            for s in ep.controller.ike_sas:
+                h.update(bytes(s.my_spi) + bytes(s.peer_spi) + bytes([int(s.state)]))
+    return h.hexdigest()
